@@ -43,6 +43,10 @@ var vhT *vhTransport
 func vhFetch(o *gogit.FetchOptions) error {
 	t := vhT
 	t.fetches++
+	if len(o.RefSpecs) == 0 {
+		// no refspec means the remote's configured fetch refspecs
+		o.RefSpecs = t.remoteCfg.Fetch
+	}
 	for _, rs := range o.RefSpecs {
 		if err := rs.Validate(); err != nil {
 			return err
@@ -78,6 +82,10 @@ func vhRemote(name string) (*gogit.Remote, error) {
 func vhPush(remo *gogit.Remote, o *gogit.PushOptions) error {
 	t := vhT
 	t.pushes++
+	if len(o.RefSpecs) == 0 {
+		// PushOptions.Validate: no refspec means the default one — every branch
+		o.RefSpecs = []config.RefSpec{config.RefSpec(config.DefaultPushRefSpec)}
+	}
 	for _, rs := range o.RefSpecs {
 		if err := rs.Validate(); err != nil {
 			return err
@@ -127,6 +135,7 @@ func vhRefWorld() (prefix, remote string, t *vhTransport) {
 	remote = vhRefWord(rt.Param("L", 2))
 	id := vhRefWord(rt.Param("L", 2))
 	other := vhRefWord(rt.Param("L", 2))
+	rt.Assume(other != prefix) // another namespace
 	all := []string{
 		"refs/" + prefix + "/" + id,
 		"refs/heads/" + id,
@@ -139,10 +148,16 @@ func vhRefWorld() (prefix, remote string, t *vhTransport) {
 		"refs/remotes/" + remote + "/" + id,
 		"HEAD",
 	}
+	local := all
+	if rt.Choose(2) == 1 {
+		// nothing of this namespace exists locally (fresh clone, or after a wipe)
+		local = all[1:]
+		rt.Cover("namespace-empty-locally")
+	}
 	t = &vhTransport{
 		remoteRefs: all,
 		remoteTags: []string{"refs/tags/" + id},
-		localRefs:  all,
+		localRefs:  local,
 		remoteCfg: &config.RemoteConfig{
 			Name:  remote,
 			URLs:  []string{"/somewhere"},
@@ -191,18 +206,25 @@ func VH_C15_push() {
 	pushed := false
 	for _, w := range t.remoteWrites {
 		rt.Assert(strings.HasPrefix(w, "refs/"+prefix+"/"), "push-writes-only-the-namespace-remotely")
-		if w == t.localRefs[0] {
+		if w == t.remoteRefs[0] {
 			pushed = true
 		}
 	}
-	rt.Assert(pushed, "push-sends-the-entity-refs")
+	has := len(t.localRefs) == len(t.remoteRefs) // the entity ref exists locally
+	if has {
+		rt.Assert(pushed, "push-sends-the-entity-refs")
+	} else {
+		rt.Assert(len(t.remoteWrites) == 0, "push-of-an-empty-namespace-sends-nothing")
+	}
 	frame := "refs/remotes/" + remote + "/" + prefix + "/"
 	tracked := false
 	for _, w := range t.localWrites {
 		rt.Assert(strings.HasPrefix(w, frame), "push-writes-only-tracking-refs-of-the-namespace")
 		tracked = true
 	}
-	rt.Assert(tracked, "push-updates-the-tracking-refs")
+	if has {
+		rt.Assert(tracked, "push-updates-the-tracking-refs")
+	}
 	_, err = repo.PushRefs("x"+remote, prefix)
 	rt.Assert(err != nil, "push-to-unknown-remote-refused")
 	rt.Observe("writes", len(t.remoteWrites))
